@@ -1,4 +1,5 @@
 import FsDb.Properties.C07
+import FsDb.Properties.C06
 /-!
 # C08 — Snapshot transactions see one consistent, stable snapshot
 
@@ -166,5 +167,21 @@ theorem C08_concrete_snapshot {c : Sys} {s : State} (h : R c s) (k : Key) {r : T
 example : (Spec.run {} [.set 0 "a" 1, .set 0 "b" 2, .begin 2 .ser, .begin 1 .rc, .set 1 "a" 10, .set 1 "b" 20,
     .commit 1, .get 2 "a", .get 2 "b", .gc, .begin 3 .rr, .get 3 "a", .get 3 "b", .get 2 "a"]).2
     = [.ok, .ok, .ok, .ok, .ok, .ok, .ok, .val 1, .val 2, .ok, .ok, .val 10, .val 20, .val 1] := by decide
+
+/-! ### under concurrency (small-step model `Model/Conc`) -/
+
+/-- **Regardless of concurrently running commits, autocommit writes, Begins and collector passes**:
+    in the small-step model (two critical sections per lookup, content fetched afterwards, retried
+    when the content was reclaimed) every `Get` of a snapshot transaction returns the specification's
+    answer in the state after some prefix of the log between its call and its return; by
+    `C08_repeatable` that answer does not depend on the prefix, and by `C08_atomic_visibility` it
+    contains all or none of any commit. -/
+theorem C08_concurrent_read (acts : List Conc.Act) (i t : Nat) (k : Key) (o : Out)
+    (hret : ((Conc.exec {} acts).thr i).pc = .ret o)
+    (hop : ((Conc.exec {} acts).thr i).op = some (.get t k)) :
+    let σ := Conc.exec {} acts
+    let th := σ.thr i
+    th.invAt ≤ th.witAt ∧ th.witAt ≤ σ.lin.length ∧ o = Spec.get (Conc.specAt σ th.witAt) t k :=
+  C06.C06_get_linearizable acts i t k o hret hop
 
 end FsDb.C08
